@@ -51,9 +51,23 @@ def shape_labels(case, trace, res):
         for key in ('late_attrs', 'watch', 'label', 'exc', 'ret'):
             if sp.get(key) not in (None, False):
                 dims.add(key)
+        if sp.get('cls') == 'print':
+            dims.add('PrintJob')
+        if sp.get('ghosts') and getattr(trace, 'rerun', False):
+            dims.add('members-of-the-first-run-only')
     for key in sorted(dims):
         res.label('dim:' + key)
     return depth, windows, njobs
+
+
+def library_job_anomalies(trace, res, prop_id):
+    """a job class of the library itself (PrintJob) that does not end as cancelled when it
+    is cancelled: the scheduler 'cancels' it and it is reported done"""
+    for e in trace.events:
+        if e['kind'] == 'anomaly':
+            res.fail('%s:library-job-not-cancelled' % prop_id,
+                     "%s at t=%s: %s" % (e['who'], e['t'], e['what']))
+            return
 
 
 def S_iter(case):
@@ -66,7 +80,8 @@ def context(ix, around=None, limit=80):
 
 
 STOP_CLAUSES = ('verdict', 'run-never-ends', 'start-after-stop', 'waited-for-normal-completion', 'not-cancelled',
-                'cancelled-at-wrong-instant', 'no-shutdown-phase',
+                'cancelled-at-wrong-instant', 'cancelled-nested-scheduler-lingers',
+                'no-shutdown-phase',
                 'shutdown-phase-begins-at-wrong-instant', 'run-ends-at-wrong-instant')
 
 
